@@ -219,10 +219,14 @@ def run_grid(c):
 
 def independent_cell_probabilities(model, desc, coords, deltas):
     """P[idx] = prod_d (F_d(x_d + delta_d/2 | x_cond(d)) - F_d(x_d - delta_d/2 | x_cond(d))), written directly from the
-    property text (own loops; does not use cell_averaged_pdf / cell_averaged_joint_pdf)."""
+    property text (own loops; does not use cell_averaged_pdf / cell_averaged_joint_pdf).
+    Also returns N[idx] = sum_d 2^-52 / |dF_d|: a bound on the RELATIVE rounding noise of P[idx] (a cdf value near 1 carries an
+    absolute error of one unit in the last place, which is large relative to a small difference: numerical saturation)."""
     n = len(coords)
     shape = [len(c) for c in coords]
     P = np.ones(shape, dtype=float)
+    N = np.zeros(shape, dtype=float)
+    eps = 2.0 ** -52
     for d in range(n):
         dist = model.distributions[d]
         x = np.asarray(coords[d], dtype=float)
@@ -232,7 +236,7 @@ def independent_cell_probabilities(model, desc, coords, deltas):
             diff = np.asarray(dist.cdf(x + h), dtype=float) - np.asarray(dist.cdf(x - h), dtype=float)
             sh = [1] * n
             sh[d] = len(x)
-            P = P * diff.reshape(sh)
+            full = diff.reshape(sh)
         else:
             g = np.asarray(coords[cond], dtype=float)
             tab = np.empty((len(g), len(x)))
@@ -243,8 +247,10 @@ def independent_cell_probabilities(model, desc, coords, deltas):
             for i in range(len(g)):
                 sl = [slice(None) if k == d else (i if k == cond else 0) for k in range(n)]
                 full[tuple(sl)] = tab[i, :]
-            P = P * full
-    return P
+        P = P * full
+        with np.errstate(divide="ignore", invalid="ignore"):
+            N = N + np.where(full != 0, eps / np.abs(full), np.inf)
+    return P, N
 
 
 def oracle_grid(c, out=None, notes=None):
@@ -266,7 +272,8 @@ def oracle_grid(c, out=None, notes=None):
         return None
     alpha = c["alpha"]
     lim = 1 - alpha
-    P = independent_cell_probabilities(out["model"], desc, coords, deltas)
+    P, N = independent_cell_probabilities(out["model"], desc, coords, deltas)
+    rt = 1e-9 + 8 * N          # relative tolerance per cell: 1e-9 plus the rounding noise of saturated cdf values
     if np.isnan(P).any():
         return "unjudgeable"
     vol = float(np.prod(deltas))
@@ -274,8 +281,8 @@ def oracle_grid(c, out=None, notes=None):
     f_impl = np.asarray(out["f"], dtype=float)
     if f_impl.shape != P.shape:
         return (dict(sig0, clause="cell-probabilities"), "cell_averaged_joint_pdf has shape %r, grid %r" % (f_impl.shape, P.shape))
-    scale = max(float(P.max()), 1e-300)
-    bad = np.abs(f_impl * vol - P) > 1e-9 * np.maximum(np.abs(P), 1e-6 * scale)
+    judge = np.isfinite(rt) & (rt < 1e-3)        # cells whose probability is numerically meaningful
+    bad = judge & (np.abs(f_impl * vol - P) > np.where(judge, rt, 0) * np.abs(P) + 1e-300)
     if bad.any():
         k = tuple(int(v) for v in np.argwhere(bad)[0])
         return (dict(sig0, clause="cell-probabilities"),
@@ -301,15 +308,21 @@ def oracle_grid(c, out=None, notes=None):
     enclosed = np.asarray(hdr) != 0
     if not enclosed.any():
         return (dict(sig0, clause="content"), "nothing enclosed")
-    # region = cells with density >= fm (ties with the threshold may fall on either side)
-    rt = 1e-9
-    if (f[enclosed] < fm * (1 - rt)).any():
-        return (dict(sig0, clause="threshold"), "an enclosed cell has density %r < fm = %r" % (float(f[enclosed].min()), fm))
-    if (~enclosed).any() and (f[~enclosed] > fm * (1 + rt)).any():
-        return (dict(sig0, clause="density-order"), "an excluded cell has density %r > fm = %r" % (float(f[~enclosed].max()), fm))
-    fmin = float(f[enclosed].min())
-    if abs(fm - fmin) > rt * max(abs(fm), abs(fmin)):
+    # region = cells with density >= fm (ties with the threshold may fall on either side); saturated cells are not judged
+    lo_bad = enclosed & judge & (f < fm * (1 - np.where(judge, rt, 0)))
+    if lo_bad.any():
+        k = tuple(int(v) for v in np.argwhere(lo_bad)[0])
+        return (dict(sig0, clause="threshold"), "enclosed cell %r has density %r < fm = %r" % (k, float(f[k]), fm))
+    hi_bad = (~enclosed) & judge & (f > fm * (1 + np.where(judge, rt, 0)))
+    if hi_bad.any():
+        k = tuple(int(v) for v in np.argwhere(hi_bad)[0])
+        return (dict(sig0, clause="density-order"), "excluded cell %r has density %r > fm = %r" % (k, float(f[k]), fm))
+    kmin = np.unravel_index(np.argmin(np.where(enclosed, f, np.inf)), f.shape)
+    fmin = float(f[kmin])
+    if judge[kmin] and abs(fm - fmin) > float(rt[kmin]) * max(abs(fm), abs(fmin)):
         return (dict(sig0, clause="threshold"), "fm = %r is not the density of the least dense enclosed cell %r" % (fm, fmin))
+    if not judge[kmin] and notes is not None:
+        notes["saturated_threshold_cell"] = notes.get("saturated_threshold_cell", 0) + 1
     content = float(P[enclosed].sum())
     tol = 1e-10
     if content > lim + tol:
